@@ -12,7 +12,7 @@ import numpy as np
 from ..core.engine import HarnessError, Inapplicable, seed_lib_rng
 from ..core.world import World, pick, swarm_weights
 
-CONTEXTS = ["bare_f", "bare_i", "bare_u", "mesh_vertices", "mesh_faces", "pc_vertices", "path_vertices", "visual_face_colors", "scene_mesh_vertices"]
+CONTEXTS = ["bare_f", "bare_i", "bare_u", "mesh_vertices", "mesh_faces", "pc_vertices", "path_vertices", "visual_face_colors", "scene_mesh_vertices", "visual_vertex_colors", "pc_colors", "texture_uv"]
 
 # routes that go through a method TrackedArray overrides: the array's own flag must be set
 TRACKED_ROUTES = [
@@ -348,6 +348,27 @@ class C02(World):
                 sc.add_geometry(mesh, node_name="n0", geom_name="g0")
                 sc.add_geometry(trimesh.Trimesh(vertices=V + 1, faces=F, process=False), node_name="n1", geom_name="g1")
                 cont["scene"] = sc
+        elif ctxn == "visual_vertex_colors":
+            V = _initial("f", max(n, 4), seed)
+            F = np.array([[0, 1, 2], [0, 2, 3], [0, 3, 1], [1, 3, 2]], dtype=np.int64)
+            data = _initial("u", len(V), seed + 1)
+            mesh = trimesh.Trimesh(vertices=V, faces=F, vertex_colors=data.copy(), process=False)
+            cont["obj"] = mesh
+            root = mesh.visual.vertex_colors
+        elif ctxn == "pc_colors":
+            V = _initial("f", n, seed)
+            data = _initial("u", n, seed + 1)
+            pc = trimesh.PointCloud(vertices=V, colors=data.copy())
+            cont["obj"] = pc
+            root = pc.colors
+        elif ctxn == "texture_uv":
+            V = _initial("f", max(n, 4), seed)
+            F = np.array([[0, 1, 2], [0, 2, 3], [0, 3, 1], [1, 3, 2]], dtype=np.int64)
+            data = np.round(np.random.RandomState(seed % (2**32)).uniform(0, 1, (len(V), 2)), 3)
+            mesh = trimesh.Trimesh(vertices=V, faces=F, process=False)
+            mesh.visual = trimesh.visual.TextureVisuals(uv=data.copy())
+            cont["obj"] = mesh
+            root = mesh.visual.uv
         elif ctxn == "pc_vertices":
             data = _initial("f", n, seed)
             pc = trimesh.PointCloud(vertices=data.copy())
@@ -368,7 +389,7 @@ class C02(World):
         k = cont["kind"]
         if k == "scene_mesh_vertices":
             return cont["scene"].__hash__()
-        if k == "visual_face_colors":
+        if k in ("visual_face_colors", "visual_vertex_colors", "pc_colors", "texture_uv"):
             return cont["obj"].visual.__hash__()
         return cont["obj"].__hash__()
 
@@ -381,6 +402,15 @@ class C02(World):
             return trimesh.Trimesh(vertices=np.array(o.vertices.tolist()), faces=np.array(o.faces.tolist(), dtype=np.int64), process=False).__hash__()
         if k == "visual_face_colors":
             m = trimesh.Trimesh(vertices=np.array(o.vertices.tolist()), faces=np.array(o.faces.tolist(), dtype=np.int64), face_colors=np.array(o.visual.face_colors.tolist(), dtype=np.uint8), process=False)
+            return m.visual.__hash__()
+        if k == "visual_vertex_colors":
+            m = trimesh.Trimesh(vertices=np.array(o.vertices.tolist()), faces=np.array(o.faces.tolist(), dtype=np.int64), vertex_colors=np.array(o.visual.vertex_colors.tolist(), dtype=np.uint8), process=False)
+            return m.visual.__hash__()
+        if k == "pc_colors":
+            return trimesh.PointCloud(vertices=np.array(o.vertices.tolist()), colors=np.array(o.colors.tolist(), dtype=np.uint8)).visual.__hash__()
+        if k == "texture_uv":
+            m = trimesh.Trimesh(vertices=np.array(o.vertices.tolist()), faces=np.array(o.faces.tolist(), dtype=np.int64), process=False)
+            m.visual = trimesh.visual.TextureVisuals(uv=np.array(o.visual.uv.tolist()))
             return m.visual.__hash__()
         if k == "pc_vertices":
             return trimesh.PointCloud(vertices=np.array(o.vertices.tolist())).__hash__()
